@@ -10,7 +10,8 @@ B  tie: containers built three ways (content-index sheets, from_dict, direct API
    with the model's answer (`uuid.run`), invented uuids canonicalised by first occurrence.
    The containers may list groups before validation (also as the target sheets are parsed
    into), some with query/status/system/count; several names may share one explicit uuid.
-C  direct oracle: the property's own statement evaluated on the real output.
+C  direct oracle: the property's own statement evaluated on the real output (every render of a
+   staged history; its last render also against the same content built in one go).
 """
 from __future__ import annotations
 
@@ -25,7 +26,7 @@ import re
 from .. import core, par
 
 MANIFEST = dict(
-    text="Proof: Lean theorems assign_functional / groups_listed / group_list_sound / defined_flow_uuid / explicit_wins (every site, every position) / conflict_rejected / conflict_sound / trigger_check_exact / trigger_unknown_flow_rejected_partial / validate_idem / container_validate_idem over a hand model of UUIDDict and RapidProContainer.update_global_uuids, for all occurrence lists, all starting dictionaries and any number of repeated validations (unbounded); tied to the code by a differential run over containers built through content-index sheets, from_dict and direct API calls (names shared across flows/campaigns/triggers, explicit uuids on random subsets of occurrences in random order, 1-3 renders) and by T1 call sequences regenerated from the source. The property's own statement is evaluated on every real render() output.",
+    text="Proof: Lean theorems assign_functional / groups_listed / group_list_sound / defined_flow_uuid / explicit_wins (every site, every position) / conflict_rejected / conflict_sound / trigger_check_exact / trigger_unknown_flow_rejected_partial / validate_idem / container_validate_idem over a hand model of UUIDDict and RapidProContainer.update_global_uuids, for all occurrence lists, all starting dictionaries and any number of repeated validations (unbounded); tied to the code by a differential run over containers built through content-index sheets, from_dict and direct API calls (names shared across flows/campaigns/triggers, explicit uuids on random subsets of occurrences in random order, 1-3 renders; also containers that grow through the API between renders — stage_consistent / stage_explicit_wins over Uuid.runStage) and by T1 call sequences regenerated from the source. The property's own statement is evaluated on every real render() output.",
     ref="§5 C06",
     note="Trusts: Lean kernel (axioms audited each run), the differential harness (spec → model request translation, output scanner) and Driver JSON codec, Python dict insertion order, uuid4 freshness (checked, not proved). `trigger for a flow that does not exist` is proved for the reading the code implements (flow name not mentioned anywhere) — the full reading is false on the unchanged tree (known finding F-C06-b, negative witness in Lean); obj_id inside inserted blocks was lost (F-C06-a, fixed).",
     technique="Lean 4 proof (induction over the occurrence list, dictionary invariants) + randomized model/code correspondence at render() output",
@@ -941,8 +942,15 @@ def check_case(spec, req, model, real, twin=None):
                 if u.startswith("«flow-uuid-") or (real["flow_uuids"] is None and UUID4.match(u) and u not in fixed):
                     return "«flow»"
                 return u
-            mm = (str(m_err["name"]), cf(m_err["new"].get("g")), cf(m_err["recorded"].get("g")))
-            rr = (name, cf(new), cf(rec))
+            def mu(j):
+                # staged histories only: the recorded uuid may be one the dictionary invented at an earlier validation
+                return cf(j["g"]) if "g" in j else "«invented»"
+
+            def ru(u):
+                u = cf(u)
+                return "«invented»" if spec.get("stages") and UUID4.match(u) and u not in fixed else u
+            mm = (str(m_err["name"]), mu(m_err["new"]), mu(m_err["recorded"]))
+            rr = (name, ru(new), ru(rec))
             if mm != rr:
                 ties.append({"what": "different conflict reported (name, new uuid, recorded uuid)", "model": mm, "real": rr})
     if m_err is None and real["error"] is None and len(real["outs"]) != n_ok_model:
@@ -1745,6 +1753,45 @@ CORPUS = [
     {"mode": "dict", "renders": 2, "blocks": {}, "groups": [["G1", None], ["G1", None]], "group_meta": [{"query": ""}, {"system": True}],
      "flows": [{"name": "F1", "uuid": "u-flow-F1-a", "nodes": [{"t": "split", "cases": [["G2", "u-group-G1-a"], ["G1", "u-group-G1-a"]]}]}],
      "campaigns": [], "triggers": []},
+    # ---- staged histories: built in stages through the API, rendered after every stage
+    # a router rendered with one case gets two more (one with its uuid, one without); a trigger
+    # restricted to one of the new groups is added with them
+    {"mode": "api", "add_flow": True, "blocks": {}, "groups": [], "group_meta": [], "campaigns": [],
+     "stages": 2, "stage_renders": [1, 2], "renders": 3,
+     "flows": [{"name": "F1", "uuid": None, "stage": 0, "nodes": [
+         {"t": "split", "stage": 0, "cases": [["G1", None], ["G2", "u-group-G2-a"], ["G3", None]], "case_stages": [0, 1, 1]}]}],
+     "triggers": [{"flow": ["F1", None], "groups": [["G2", None]], "exclude": [], "stage": 1}]},
+    # a router rendered WITHOUT cases, cases come in two further stages; the groups are used elsewhere
+    # (listed group, action added to an old node, campaign added later, event added to an old campaign)
+    {"mode": "api", "add_flow": False, "blocks": {}, "groups": [["G1", "u-group-G1-a"]], "group_meta": [{"query": "age > 18"}],
+     "stages": 3, "stage_renders": [1, 1, 1], "renders": 3,
+     "flows": [{"name": "F1", "uuid": "u-flow-F1-a", "stage": 0, "nodes": [
+         {"t": "split", "stage": 0, "cases": [["G1", None], ["G2", None], ["G2", "u-group-G2-a"]], "case_stages": [1, 1, 2]},
+         {"t": "actions", "stage": 0, "actions": [{"t": "add", "stage": 0, "groups": [["G3", None]]},
+                                                   {"t": "remove", "stage": 2, "groups": [["G2", None], ["G4", None]]}]},
+         {"t": "enter", "stage": 1, "flow": ["F2", None]}]},
+               {"name": "F2", "uuid": None, "stage": 1, "nodes": [{"t": "split", "stage": 2, "cases": [["G4", None]], "case_stages": [2]}]}],
+     "campaigns": [{"name": "c0", "group": ["G3", None], "by_name": True, "stage": 0,
+                    "events": [{"type": "F", "flow": ["F1", None], "stage": 0}, {"type": "F", "flow": ["F2", None], "stage": 1}]},
+                   {"name": "c1", "group": ["G2", None], "by_name": False, "stage": 1, "events": []}],
+     "triggers": [{"flow": ["F1", None], "groups": [], "exclude": [["G3", None]], "stage": 0},
+                  {"flow": ["F2", None], "groups": [["G4", None]], "exclude": [], "stage": 2}]},
+    # two different explicit uuids, the second one on a case added after a render: must be rejected
+    {"mode": "api", "add_flow": True, "blocks": {}, "groups": [], "group_meta": [], "campaigns": [], "triggers": [],
+     "stages": 2, "stage_renders": [1, 1], "renders": 2,
+     "flows": [{"name": "F1", "uuid": None, "stage": 0, "nodes": [
+         {"t": "split", "stage": 0, "cases": [["G1", "u-group-G1-a"], ["G1", "u-group-G1-b"]], "case_stages": [0, 1]}]}]},
+    # as coded (`late_explicit`): the first explicit uuid of a name arrives after the name was rendered
+    # with an invented one → ValueError(multiple uuids); tie only, the rejection is tolerated
+    {"mode": "api", "add_flow": True, "blocks": {}, "groups": [], "group_meta": [], "campaigns": [], "triggers": [],
+     "stages": 2, "stage_renders": [1, 1], "renders": 2,
+     "flows": [{"name": "F1", "uuid": None, "stage": 0, "nodes": [
+         {"t": "split", "stage": 0, "cases": [["G1", None], ["G1", "u-group-G1-a"]], "case_stages": [0, 1]}]}]},
+    # … a flow that an enter_flow action of a rendered flow refers to is defined afterwards (add_flow raises)
+    {"mode": "api", "add_flow": True, "blocks": {}, "groups": [], "group_meta": [], "campaigns": [], "triggers": [],
+     "stages": 2, "stage_renders": [1, 1], "renders": 2,
+     "flows": [{"name": "F1", "uuid": None, "stage": 0, "nodes": [{"t": "enter", "stage": 0, "flow": ["F2", None]}]},
+               {"name": "F2", "uuid": None, "stage": 1, "nodes": []}]},
     # three plain names on one uuid (no attributes anywhere)
     {"mode": "api", "renders": 2, "add_flow": False, "blocks": {}, "groups": [["G1", "u-group-G1-a"], ["G2", "u-group-G1-a"]],
      "flows": [{"name": "F1", "uuid": "u-flow-F1-a", "nodes": [{"t": "actions", "actions": [{"t": "add", "groups": [["G3", "u-group-G1-a"], ["G2", None]]}]}]}],
@@ -1808,7 +1855,7 @@ def run(ck: core.Check):
         "0/0.1/0.5), rendered 1-3 times; the containers may list groups before validation (from_dict, "
         "RapidProContainer(groups=…), also as the target the sheets are parsed into), a third of those groups carrying "
         "query/status/system/count; in a quarter of the cases two or three different group names are bound to one "
-        "explicit uuid (renamed group / obj_id equal to another group's uuid), the listed ones mostly with attributes; non-trivial = at least two reference occurrences; distinct = distinct specs"
+        "explicit uuid (renamed group / obj_id equal to another group's uuid), the listed ones mostly with attributes; one case in seven is a STAGED history: an api container built in 2-3 stages and rendered 1-2 times after every stage, each flow / node / group action / has_group case / campaign / event / trigger added at a random stage not before its parent (so routers, nodes, flows, campaigns that were already rendered get more content), every render compared with the model (`uuid.staged`: Uuid.runStage) and judged by the statement, the last render compared with the render of the same content built in one go up to invented uuids; non-trivial = at least two reference occurrences; distinct = distinct specs"
     )
     ck.assumptions = [
         "Python dict keeps insertion order and the position of an updated key (modelled by dset; exercised by the tie on the order of the top-level group list)",
@@ -1819,7 +1866,8 @@ def run(ck: core.Check):
         "trigger_unknown_flow_rejected is proved for the reading the code implements (flow name not in flow_dict = neither defined nor mentioned by any action/campaign/obj_id); the full reading (not DEFINED) is false on the unchanged tree: Lean negative witness trigger_unknown_flow_rejected_full_false, known finding F-C06-b",
         "sheet rows merged into an existing node (same node_name) record nothing at parse time (modelled as coded: only their Group object carries the obj_id); merging of start_new_flow / split rows does not exist in the code",
         "nested insert_as_block (a block inserting a block) is neither generated nor modelled (each level gets its own throw-away container in the code)",
-        "modifications of the container between two renders (adding flows/triggers after a render) are outside the statement and not explored",
+        "staged histories (content added between two renders) are generated through the public API only (add_flow, add_node, add_action, add_choice, add_campaign, add_event, add_trigger on an api-built container); removing or editing objects between renders is not explored",
+        "a name whose FIRST explicit uuid arrives after the name was validated (rendered with an invented uuid), e.g. a flow defined by add_flow after a rendered flow referred to it: the unchanged code rejects the history with ValueError(multiple uuids); the statement does not say what should happen, modelled as coded, exercised by two corpus shapes (rejection tolerated), kept out of the random stream",
     ]
     if not core.DRIVER_BIN.exists():
         raise core.Infra("driver not built:\n" + ck.lean.log[-2000:])
@@ -1937,7 +1985,11 @@ def replay(path):
                 print("   ", o)
         m = core.Driver().results([req])[0]
         print("model:", json.dumps(m, ensure_ascii=False)[:3000])
-        ties, viol, info = check_case(spec, req, m, real)
+        twin = None
+        if spec.get("stages"):
+            tw = twin_of(spec)
+            twin = run_real(tw, model_request(tw))
+        ties, viol, info = check_case(spec, req, m, real, twin)
         print("violations:", json.dumps(viol, ensure_ascii=False, default=str)[:3000])
         return 1 if viol else 0
     return 0
